@@ -72,6 +72,15 @@ CHECKS = {
                      "timelines, x 4 configurations; after each event the frames written, application deliveries, "
                      "socket state, CEA/CER content and routing availability are compared with the model.",
                 ref="4 C06", note=NODE_NOTE + "; behaviour after a second CER is unspecified and not judged."),
+    "C07": dict(cat="exploration", tech="lockstep node harness; per-socket multiset matching of every transmitted "
+                "answer frame against the unanswered requests read from that socket; one input per quiescent step",
+                text="Every frame with the R bit clear that the node writes is matched (code, application id, "
+                     "hop-by-hop, end-to-end) against a distinct earlier unanswered request on the same socket; an "
+                     "answer frame in a step whose input was an answer is attributed to it. Exhaustive depth-3 scripts "
+                     "over a 23-letter alphabet of well-formed and defective requests/answers, deferred and repeated "
+                     "application submissions and late answers, from six connection start states and six application "
+                     "behaviours; random scripts on 1..3 connections.",
+                ref="4 C07", note=NODE_NOTE + "; in-flight hop-by-hop ids are unique per connection (quantifier)."),
 }
 
 NOT_YET = "check not built yet in this round (planned in DESIGN.md section 4); no claim is made"
